@@ -330,6 +330,8 @@ fn run_on(dir: &str, variant: usize, case: &Case) -> (Vec<String>, Option<(Strin
         }
         if let Cmd::AdminConflict { n } = c {
             // two writers present the same stale version of a secret key, contents differ between the servers
+            // (an administrator is registered as arbiter, so the conflict is recorded whoever else is)
+            srv.admin.send(&srv.node, "arbiter");
             for w in 0..2 {
                 let sv = if variant == 0 { format!("conflict-{}-{}-alpha", n, w) } else { format!("conflict-{}-{}-omega-x", n, w) };
                 srv.admin.send(&srv.node, &format!("set-safe $$secret 0 {}", sv));
@@ -424,7 +426,17 @@ pub fn run_case(ctx: &Ctx, case: &Case) -> Outcome {
             let line = a.split(" -> ").next().unwrap_or("").splitn(2, ' ').nth(1).unwrap_or("").to_string();
             let word = line.split(' ').next().unwrap_or("").to_string();
             let word = if word == "rp" { format!("rp+{}", line.split(' ').nth(2).unwrap_or("")) } else { word };
-            out.fail = Some((format!("C08|leak|{}", word), format!("transcripts differ between two servers that differ only in secret contents:\n  A: {}\n  B: {}", a, b)));
+            // (the register of a conflict on a secure key is kept under a plain key, $conflicts_$$<key>_<id>: what is seen
+            // of it is one recorded root cause, any other difference is not)
+            let sig = if a.contains("$conflicts_$$") || b.contains("$conflicts_$$") {
+                "C08|leak|conflict-record-of-a-secure-key".to_string()
+            } else if [a, b].iter().any(|l| l.contains("resolve ") && l.contains(" $$")) {
+                // the conflict notice itself, pushed to a session that registered with `arbiter`
+                "C08|leak|conflict-on-a-secure-key-sent-to-the-arbiter".to_string()
+            } else {
+                format!("C08|leak|{}", word)
+            };
+            out.fail = Some((sig, format!("transcripts differ between two servers that differ only in secret contents:\n  A: {}\n  B: {}", a, b)));
             return out;
         }
     }
